@@ -33,7 +33,14 @@
        normalised named arguments instead of being spliced into them
        (work/fixes/C12-varargs-key.diff).
    The theorems are about Repaired; the _refuted examples show AsWritten violating them.
-   run_case returns the runs of all variants. *)
+   run_case returns the runs of all variants.
+
+   Scale (fan-out): `OFan` / `BFan` are compact spellings of n consecutive calls fn(lo), fn(lo+1), ...
+   (the usual `yield [f.asynq(i) for i in ids]`): n distinct keys registered at the same time in the
+   one class-level `tasks` dict (343) - a plain dict, unbounded: an entry leaves it only through the
+   completion callback of its task (366-369) or dirty() (380-382), never because other keys are
+   registered.  d_fan performs them one by one through `micro` (DedupProofs.fan_is_calls); `observe`
+   run-length encodes what they did so that cases with thousands of keys stay cheap to print. *)
 From Asynq Require Export Base.
 
 Definition name := Z.    (* parameter names; the harness maps 0.. to self a b c d x y z (sorted alike) *)
@@ -183,14 +190,89 @@ Definition key_of (v : variant) (c : callspec) : option key :=
   end.
 Definition bind_of (c : callspec) := bind (sig_of (cfn c)) (full_pos c) (ckw c).
 
+(* the i-th call of a fan-out over `fn`: fn(lo + i) (sp = 0, also any other sp) or fn(a = lo + i) (sp = 1) *)
+Definition fan_call (th fn gen inst sp lo : Z) (i : nat) : callspec :=
+  if Z.eqb sp 1 then mkCall th fn gen inst [] [(1, AInt (lo + Z.of_nat i))]
+  else mkCall th fn gen inst [AInt (lo + Z.of_nat i)] [].
+Definition fan_calls (th fn gen inst sp lo n : Z) : list callspec :=
+  map (fan_call th fn gen inst sp lo) (seq 0 (Z.to_nat n)).
+
 Definition kelt_eq_dec : forall a b : kelt, {a = b} + {a <> b}.
 Proof. decide equality; try apply aval_eq_dec; try apply Z.eq_dec. apply (list_eq_dec aval_eq_dec). Defined.
-Definition key_eq_dec : forall a b : key, {a = b} + {a <> b}.
+(* Equality of keys (Python: tuple equality / hash lookup in the dict).  It is decided by a boolean
+   function that looks at the function id and the thread first and stops at the first difference:
+   the registry lookup runs it millions of times on the fan-out cases (thousands of keys registered
+   at once), where the stdlib's proof-carrying Z.eq_dec / list_eq_dec are several times slower under
+   vm_compute.  key_eqb_true / key_eqb_false (DedupKeys below; opaque, so never evaluated) make it a
+   decision procedure; everything else treats key_eq_dec abstractly. *)
+Definition aval_eqb (a b : aval) : bool :=
+  match a, b with
+  | AInt x, AInt y => Z.eqb x y
+  | ANone, ANone => true
+  | AInst g i, AInst h j => if Z.eqb g h then Z.eqb i j else false
+  | _, _ => false
+  end.
+Fixpoint list_eqb {A} (eqb : A -> A -> bool) (l l' : list A) : bool :=
+  match l, l' with
+  | [], [] => true
+  | x :: r, y :: r' => if eqb x y then list_eqb eqb r r' else false
+  | _, _ => false
+  end.
+Definition kelt_eqb (a b : kelt) : bool :=
+  match a, b with
+  | KPos x, KPos y => aval_eqb x y
+  | KKw n x, KKw m y => if Z.eqb n m then aval_eqb x y else false
+  | KRest l, KRest l' => list_eqb aval_eqb l l'
+  | _, _ => false
+  end.
+Definition key_eqb (a b : key) : bool :=
+  let '(la, ta, (fa, ga)) := a in
+  let '(lb, tb, (fb, gb)) := b in
+  if Z.eqb fa fb then if Z.eqb ga gb then if Z.eqb ta tb then list_eqb kelt_eqb la lb else false else false else false.
+
+Lemma aval_eqb_eq a b : aval_eqb a b = true <-> a = b.
 Proof.
-  decide equality.
-  - decide equality; apply Z.eq_dec.
-  - decide equality; [apply Z.eq_dec|apply (list_eq_dec kelt_eq_dec)].
-Defined.
+  destruct a, b; cbn; try (split; [discriminate|intros H; inversion H]); try (split; reflexivity).
+  - rewrite Z.eqb_eq. split; [intros ->; reflexivity|intros H; inversion H; reflexivity].
+  - destruct (Z.eqb g g0) eqn:E.
+    + apply Z.eqb_eq in E. subst. rewrite Z.eqb_eq. split; [intros ->; reflexivity|intros H; inversion H; reflexivity].
+    + apply Z.eqb_neq in E. split; [discriminate|intros H; inversion H; contradiction].
+Qed.
+Lemma list_eqb_eq {A} (eqb : A -> A -> bool) :
+  (forall x y, eqb x y = true <-> x = y) -> forall l l', list_eqb eqb l l' = true <-> l = l'.
+Proof.
+  intros He. induction l as [|x l IH]; destruct l' as [|y l']; cbn; try (split; [discriminate|intros H; inversion H]); [split; reflexivity|].
+  destruct (eqb x y) eqn:E.
+  - apply He in E. subst. rewrite IH. split; [intros ->; reflexivity|intros H; inversion H; reflexivity].
+  - split; [discriminate|]. intros H; inversion H; subst. assert (eqb y y = true) by (apply He; reflexivity). congruence.
+Qed.
+Lemma kelt_eqb_eq a b : kelt_eqb a b = true <-> a = b.
+Proof.
+  destruct a, b; cbn; try (split; [discriminate|intros H; inversion H]).
+  - rewrite aval_eqb_eq. split; [intros ->; reflexivity|intros H; inversion H; reflexivity].
+  - destruct (Z.eqb n n0) eqn:E.
+    + apply Z.eqb_eq in E. subst. rewrite aval_eqb_eq. split; [intros ->; reflexivity|intros H; inversion H; reflexivity].
+    + apply Z.eqb_neq in E. split; [discriminate|intros H; inversion H; contradiction].
+  - rewrite (list_eqb_eq aval_eqb aval_eqb_eq). split; [intros ->; reflexivity|intros H; inversion H; reflexivity].
+Qed.
+Lemma key_eqb_eq a b : key_eqb a b = true <-> a = b.
+Proof.
+  destruct a as [[la ta] [fa ga]], b as [[lb tb] [fb gb]]. cbn.
+  destruct (Z.eqb fa fb) eqn:E1; [apply Z.eqb_eq in E1|apply Z.eqb_neq in E1; split; [discriminate|intros H; inversion H; contradiction]].
+  destruct (Z.eqb ga gb) eqn:E2; [apply Z.eqb_eq in E2|apply Z.eqb_neq in E2; split; [discriminate|intros H; inversion H; contradiction]].
+  destruct (Z.eqb ta tb) eqn:E3; [apply Z.eqb_eq in E3|apply Z.eqb_neq in E3; split; [discriminate|intros H; inversion H; contradiction]].
+  subst. rewrite (list_eqb_eq kelt_eqb kelt_eqb_eq). split; [intros ->; reflexivity|intros H; inversion H; reflexivity].
+Qed.
+Lemma key_eqb_true a b : key_eqb a b = true -> a = b.
+Proof. apply key_eqb_eq. Qed.
+Lemma key_eqb_false a b : key_eqb a b = false -> a <> b.
+Proof. intros H E. apply key_eqb_eq in E. congruence. Qed.
+
+Definition key_eq_dec (a b : key) : {a = b} + {a <> b} :=
+  match key_eqb a b as r return key_eqb a b = r -> {a = b} + {a <> b} with
+  | true => fun H => left (key_eqb_true a b H)
+  | false => fun H => right (key_eqb_false a b H)
+  end eq_refl.
 
 (* ---------------------------------------------------------------- the deduplicate state machine *)
 Inductive status := Created | Running | Gated | Done.
@@ -314,7 +396,8 @@ Fixpoint run_micro (v : variant) (st : state) (acts : list action) : state * lis
 Inductive bstep :=
 | BGate                                                     (* yield a harness batch item        *)
 | BCall (fn gen inst : Z) (pos : list aval) (kw : list (name * aval))    (* .asynq() from inside the body *)
-| BDirty (fn gen inst : Z) (pos : list aval) (kw : list (name * aval)).
+| BDirty (fn gen inst : Z) (pos : list aval) (kw : list (name * aval))
+| BFan (fn gen inst sp lo n : Z).                           (* [fn.asynq(i) for i in range(lo, lo+n)] from inside the body *)
 Inductive fin := Ret (z : Z) | Raise (e : exn).
 Definition script := (list bstep * fin)%type.
 
@@ -322,11 +405,12 @@ Inductive op :=
 | OCall (thread fn gen inst : Z) (pos : list aval) (kw : list (name * aval))
 | ODirty (thread fn gen inst : Z) (pos : list aval) (kw : list (name * aval))
 | OGo                                                       (* hand the created tasks to the scheduler *)
-| OFlush (e : nat).                                         (* let body execution e pass its gate      *)
-
+| OFlush (e : nat)                                          (* let body execution e pass its gate      *)
+| OFan (thread fn gen inst sp lo n : Z).                    (* [fn.asynq(i) for i in range(lo, lo+n)]  *)
 Inductive cres := RTask (tid : Z) (fresh : bool) | RTypeErr.
 Inductive event :=
 | ECall (cid ctx : Z) (r : cres) (b : option (list aval * list aval * list (name * aval)))
+| EFanCall (cid ctx : Z) (r : cres)                          (* one call of a fan-out (binding not recorded) *)
 | EDirty (ctx : Z) (ok : bool)
 | EStart (e tid : Z)
 | EDone (e : Z) (o : outcome).
@@ -352,6 +436,21 @@ Definition d_call (v : variant) (d : dstate) (ctx : Z) (c : callspec) : dstate :
         (ECall (ncall d) ctx RTypeErr (bind_of c) :: trace d)
   end.
 
+(* one call of a fan-out: d_call, recorded without the binding *)
+Definition d_fcall (v : variant) (d : dstate) (ctx : Z) (c : callspec) : dstate :=
+  let '(s', r) := micro v (core d) (ACall c) in
+  match r with
+  | MTask t b =>
+    mkD s' (nexec d) (gated d) (fresh d ++ [(ncall d, t)]) (callers d ++ [(ncall d, t)]) (ncall d + 1)
+        (EFanCall (ncall d) ctx (RTask (Z.of_nat t) b) :: trace d)
+  | _ =>
+    mkD s' (nexec d) (gated d) (fresh d) (callers d) (ncall d + 1)
+        (EFanCall (ncall d) ctx RTypeErr :: trace d)
+  end.
+
+Definition d_fan (v : variant) (d : dstate) (ctx th fn gen inst sp lo n : Z) : dstate :=
+  fold_left (fun d c => d_fcall v d ctx c) (fan_calls th fn gen inst sp lo n) d.
+
 Definition d_dirty (v : variant) (d : dstate) (ctx : Z) (c : callspec) : dstate :=
   let '(s', r) := micro v (core d) (ADirty c) in
   mkD s' (nexec d) (gated d) (fresh d) (callers d) (ncall d)
@@ -372,6 +471,8 @@ Fixpoint run_steps (v : variant) (d : dstate) (t e : nat) (steps : list bstep) (
     run_steps v (d_call v d (Z.of_nat e) (mkCall 0 fn gen inst pos kw)) t e rest f
   | BDirty fn gen inst pos kw :: rest =>
     run_steps v (d_dirty v d (Z.of_nat e) (mkCall 0 fn gen inst pos kw)) t e rest f
+  | BFan fn gen inst sp lo n :: rest =>
+    run_steps v (d_fan v d (Z.of_nat e) 0 fn gen inst sp lo n) t e rest f
   end.
 
 Definition d_start (v : variant) (scripts : list script) (d : dstate) (t : nat) : dstate :=
@@ -422,6 +523,7 @@ Fixpoint d_group (v : variant) (d : dstate) (ops : list op) : dstate * list op :
   match ops with
   | OCall th fn gen inst pos kw :: ops' => d_group v (d_call v d (-1) (mkCall th fn gen inst pos kw)) ops'
   | ODirty th fn gen inst pos kw :: ops' => d_group v (d_dirty v d (-1) (mkCall th fn gen inst pos kw)) ops'
+  | OFan th fn gen inst sp lo n :: ops' => d_group v (d_fan v d (-1) th fn gen inst sp lo n) ops'
   | OGo :: ops' => (d, ops')
   | _ => (d, ops)
   end.
@@ -450,14 +552,81 @@ Definition fuel_for (scripts : list script) (ops : list op) : nat :=
 
 Definition d_init : dstate := mkD init 0 [] [] [] 0 [].
 
-Definition result := (list event * list (Z * outcome) * Z)%type.
+(* ---- what is compared: the trace, run-length encoded
+   - consecutive fan-out calls (consecutive caller ids, same context) become one CFan with segments of
+     consecutive task ids that are all new / all shared, or of TypeErrors;
+   - consecutive (EStart e t; EDone e o) pairs with e and t increasing by one and equal outcomes become
+     one CRuns (a single pair is left as the two events);
+   - callers' outcomes: (first caller, count, outcome) for consecutive callers with equal outcomes.
+   The encoding is injective; the runner applies the same function to what the implementation did. *)
+Inductive fseg := SegTask (tid0 n : Z) (fresh : bool) | SegErr (n : Z).
+Inductive cevent :=
+| CEv (e : event)
+| CFan (cid0 ctx n : Z) (segs : list fseg)
+| CRuns (e0 tid0 n : Z) (o : outcome).
+
+Definition push_fan (cid ctx : Z) (r : cres) (acc : list cevent) : list cevent :=
+  let seg1 := match r with RTask t b => SegTask t 1 b | RTypeErr => SegErr 1 end in
+  match acc with
+  | CFan c0 x n segs :: acc' =>
+    if Z.eqb cid (c0 + n) && Z.eqb ctx x then
+      CFan c0 x (n + 1)
+           (match r, segs with
+            | RTask t b, SegTask t0 m b0 :: segs' =>
+              if Z.eqb t (t0 + m) && Bool.eqb b b0 then SegTask t0 (m + 1) b0 :: segs' else seg1 :: segs
+            | RTypeErr, SegErr m :: segs' => SegErr (m + 1) :: segs'
+            | _, _ => seg1 :: segs
+            end) :: acc'
+    else CFan cid ctx 1 [seg1] :: acc
+  | _ => CFan cid ctx 1 [seg1] :: acc
+  end.
+
+Definition push_run (e t : Z) (o : outcome) (acc : list cevent) : list cevent :=
+  match acc with
+  | CRuns e0 t0 n o0 :: acc' =>
+    if Z.eqb e (e0 + n) && Z.eqb t (t0 + n) && outcome_eqb o o0 then CRuns e0 t0 (n + 1) o0 :: acc'
+    else CRuns e t 1 o :: acc
+  | _ => CRuns e t 1 o :: acc
+  end.
+
+(* l oldest first, acc newest first *)
+Fixpoint compress (l : list event) (acc : list cevent) : list cevent :=
+  match l with
+  | [] => acc
+  | EFanCall cid ctx r :: l' => compress l' (push_fan cid ctx r acc)
+  | EStart e t :: ((EDone e' o :: l'') as l') =>
+    if Z.eqb e e' then compress l'' (push_run e t o acc) else compress l' (CEv (EStart e t) :: acc)
+  | ev :: l' => compress l' (CEv ev :: acc)
+  end.
+
+Definition finish_cevent (c : cevent) : list cevent :=
+  match c with
+  | CRuns e t 1 o => [CEv (EStart e t); CEv (EDone e o)]
+  | CFan c0 x n segs => [CFan c0 x n (rev segs)]
+  | _ => [c]
+  end.
+
+Definition compress_trace (l : list event) : list cevent := flat_map finish_cevent (rev (compress l [])).
+
+Fixpoint compress_got (l : list (Z * outcome)) (acc : list (Z * Z * outcome)) : list (Z * Z * outcome) :=
+  match l with
+  | [] => rev acc
+  | (c, o) :: l' =>
+    compress_got l' (match acc with
+                     | (c0, n, o0) :: acc' =>
+                       if Z.eqb c (c0 + n) && outcome_eqb o o0 then (c0, n + 1, o0) :: acc' else (c, 1, o) :: acc
+                     | [] => [(c, 1, o)]
+                     end)
+  end.
+
+Definition result := (list cevent * list (Z * Z * outcome) * Z)%type.
 
 Definition observe (d : dstate) : result :=
-  (rev (trace d),
-   flat_map (fun ct => match nth_error (pool (core d)) (snd ct) with
-                       | Some x => match tout x with Some o => [(fst ct, o)] | None => [] end
-                       | None => []
-                       end) (callers d),
+  (compress_trace (rev (trace d)),
+   compress_got (flat_map (fun ct => match nth_error (pool (core d)) (snd ct) with
+                                     | Some x => match tout x with Some o => [(fst ct, o)] | None => [] end
+                                     | None => []
+                                     end) (callers d)) [],
    Z.of_nat (length (reg (core d)))).
 
 Definition run_variant (v : variant) (scripts : list script) (ops : list op) : result :=
@@ -467,3 +636,11 @@ Definition run_variant (v : variant) (scripts : list script) (ops : list op) : r
 Definition run_case (scripts : list script) (ops : list op) : list result :=
   [run_variant Repaired scripts ops; run_variant AsWritten scripts ops;
    run_variant CallbackRepaired scripts ops; run_variant KeyRepaired scripts ops].
+
+(* what the harness evaluates: sel = 0: all four variants; otherwise only the code with both repairs
+   and the code as written (used for the fan-out cases: thousands of keys make every variant cost
+   seconds under vm_compute, and the two single-repair variants were only needed while the repairs
+   were being applied to the repository one at a time) *)
+Definition run_case_sel (sel : Z) (scripts : list script) (ops : list op) : list result :=
+  if Z.eqb sel 0 then run_case scripts ops
+  else [run_variant Repaired scripts ops; run_variant AsWritten scripts ops].
